@@ -535,6 +535,23 @@ example : prematchAny wR.changing (wCs none).changing = false ∧
 -- … and with the label the same cycle adds the finalizer (so `stealth`'s hypothesis is what matters)
 example : cycle wR (wCs (some "v")) ⟨false, false, false, true⟩ [] = [Effect.addFinalizer] := by decide
 
+-- non-vacuity of `stealth_total` with handlers of all three kinds present but filtered out, and of
+-- `dedup_first_kept` (the second registration of (0, "h") is not the first of its key; the third is)
+example :
+    let h := { wH false .unset false .unset .unset (some [("lk", .value "x")]) true with field := none }
+    let r : Registry J := { watching := [h], spawning := [h], changing := [{ h with changing := true }] }
+    prematchAny r.changing (wCs (some "y")).changing = false ∧
+    (∀ g ∈ r.watching, matchHandler g (wCs (some "y")).watching = false) ∧
+    (∀ g ∈ r.spawning, matchHandler g (wCs (some "y")).spawning = false) ∧
+    cycle r (wCs (some "y")) ⟨false, false, false, true⟩ [] = [] ∧
+    cycle r (wCs (some "x")) ⟨false, false, false, true⟩ [] =
+      [Effect.invokeWatching ["h"], Effect.spawn ["h"], Effect.addFinalizer] := by
+  refine ⟨by decide, ?_, ?_, by decide, by decide⟩ <;> (intro g hg; simp at hg; subst hg; decide)
+example :
+    let h := wH true .unset false
+    ∀ g ∈ [h, { h with labels := some [] }], g.key ≠ ({ h with fn := 1 } : Handler J).key := by
+  intro h g hg; simp at hg; rcases hg with rfl | rfl <;> decide
+
 end Witnesses
 
 end Kopf.C15
